@@ -3,6 +3,7 @@ import Dcg.Proofs.FieldOmit
 import Dcg.Proofs.FieldValue
 import Dcg.Proofs.FieldMutable
 import Dcg.Proofs.FieldNull
+import Dcg.Proofs.FieldSort
 /-! From the exhaustive lemmas (reduced vectors, closed-form template decision) to statements about
 every vector of the full space and the table-driven model. -/
 namespace Dcg.Proofs.Field
@@ -70,6 +71,10 @@ theorem dcFactory (v : Vec) (hv : v.valid = true) (ho : v.omittable = true) (hd 
 theorem nullExact (v : Vec) (hv : v.valid = true) (hn : v.admitsNull = true) :
     NullExact tableDecision v.reduce := by
   have h := allR nullExact_closed v.reduce hv hn
+  rwa [← decision_eq] at h
+
+theorem sortKeyExact (v : Vec) (hv : v.valid = true) : SortKeyExact tableDecision v.reduce := by
+  have h := allR sortKeyExact_closed v.reduce hv rfl
   rwa [← decision_eq] at h
 
 end Dcg.Proofs.Field
